@@ -321,6 +321,11 @@ def write_evidence(ctx, level, rule, extra=None, assumptions=None):
         "traces_validated_against_impl": ctx.evaluations,
         "known_findings_hit": ctx.known,
     }
+    if not ctx.obligations:   # no theorem merged yet for this property: exploration-style evidence only
+        for k in ("obligations", "discharged", "checker_cmd", "theorems"):
+            cov.pop(k, None)
+        if level == "proof":
+            level = "exploration"
     cov.update(ctx.stats)
     if extra:
         cov.update(extra)
@@ -328,6 +333,16 @@ def write_evidence(ctx, level, rule, extra=None, assumptions=None):
           "assumptions": assumptions or [], "wall_s": round(time.time() - ctx.t0, 2), "violations": len(ctx.violations)}
     os.makedirs(os.path.join(VERIF, "evidence"), exist_ok=True)
     json.dump(ev, open(os.path.join(VERIF, "evidence", ctx.prop + ".json"), "w"), indent=1)
+
+
+def theorems_in(relpath, names, namespace):
+    """names of the listed theorems that are present in a Properties file (files whose proofs are
+    still being merged are simply absent and contribute no obligations)."""
+    f = os.path.join(LEAN, relpath)
+    if not os.path.exists(f):
+        return []
+    src = strip_comments(open(f).read())
+    return [namespace + "." + t for t in names if re.search(r"\btheorem\s+%s\b" % re.escape(t), src)]
 
 
 def hexs(b):
